@@ -858,7 +858,11 @@ func runScript(t *testing.T, sc scriptJ, w *bufio.Writer) {
 			synctest.Wait()
 			enc(obsLine{K: "obs", I: i, T: r.tr.nowUnits(), Ev: r.tr.take(), Pend: r.pend(), Void: r.voids()})
 		}
-		// epilogue: open every gate, make sure the server is closed, then judge leaks
+		// epilogue: open every gate, let every connection be read again, make sure
+		// the server is closed, then judge leaks
+		for _, c := range r.conns {
+			c.stall(false)
+		}
 		r.lis.release()
 		for _, pl := range r.plugins {
 			for _, g := range pl.cfg.Gates {
